@@ -288,8 +288,34 @@ func cmdRecTick(o *Out, line string, f []string) {
 			time.Sleep(500 * time.Microsecond)
 		}
 		reached := coll.n() >= K
-		rec.EndIteration(time.Millisecond)
-		err := rec.EndTest()
+		closeBy := "endtest"
+		if len(f) > 4 {
+			closeBy = f[4]
+		}
+		var err error
+		if closeBy == "reset" {
+			rec.Reset()
+		} else {
+			rec.EndIteration(time.Millisecond)
+			err = rec.EndTest()
+		}
+		// after EndTest or Reset has returned nothing is persisted any more, whatever the collector answered before:
+		// the flusher belongs to the test cycle
+		after := coll.n()
+		time.Sleep(14 * time.Millisecond)
+		quiet := coll.n() == after
+		if !quiet {
+			o.violation(line, "samples were handed to the collector after "+closeBy+" had returned (the background flusher outlives the test cycle)",
+				map[string]int{"cycle": c, "adds_after": coll.n() - after})
+		}
+		if closeBy == "reset" {
+			res = append(res, fmt.Sprintf("ticks=%v,reset,quiet=%v", reached, quiet))
+			if !reached {
+				o.violation(line, "an interval recorder stopped persisting at elapsed intervals while the test was open",
+					map[string]int{"cycle": c, "adds": coll.n(), "expected_at_least": K})
+			}
+			continue
+		}
 		if !reached {
 			o.violation(line, "an interval recorder stopped persisting at elapsed intervals while the test was open",
 				map[string]int{"cycle": c, "adds": coll.n(), "expected_at_least": K})
@@ -298,7 +324,7 @@ func cmdRecTick(o *Out, line string, f []string) {
 			o.violation(line, "EndTest does not report the collector errors since the previous EndTest (or reports one that did not happen)",
 				map[string]interface{}{"cycle": c, "error": fmt.Sprint(err), "failing_adds": f[1]})
 		}
-		res = append(res, fmt.Sprintf("ticks=%v,endErr=%v", reached, err != nil))
+		res = append(res, fmt.Sprintf("ticks=%v,endErr=%v,quiet=%v", reached, err != nil, quiet))
 	}
 	o.emit(line, strings.Join(res, " "))
 	o.nontrivial(line)
@@ -457,6 +483,7 @@ func streamRecTick(o *Out, rng *rand.Rand, thorough bool, _ []string) {
 	for _, fa := range fails {
 		for _, kind := range []string{"interval", "histInterval"} {
 			lines = append(lines, fmt.Sprintf("rec-tick %s %s %d %d", kind, fa, 6+rng.Intn(4), 1+rng.Intn(2)))
+			lines = append(lines, fmt.Sprintf("rec-tick %s %s %d %d reset", kind, fa, 3+rng.Intn(4), 1+rng.Intn(2)))
 		}
 	}
 	runIsolated(o, lines, 30*time.Second)
